@@ -26,6 +26,19 @@ def build(par, family="Node", names=None, attrs=None):
         nodes = [F.FalsyNM(names[i], i % 2) for i in range(k)]
     elif family == "ITER":
         nodes = [F.IterNM(names[i], i % 2) for i in range(k)]
+    elif family == "SYMLM":
+        # every other node is a link to a hidden LightNodeMixin node that has children of its own
+        nodes = []
+        for i in range(k):
+            if i % 2:
+                hidden = F.LM("hidden%d" % i)
+                F.LM("hk%da" % i, parent=hidden)
+                F.LM("hk%db" % i, parent=hidden)
+                nodes.append(F.HSymMixin(hidden))
+            else:
+                nodes.append(F.NM(names[i]))
+    elif family == "LIST":
+        nodes = [F.ListNM(names[i], i % 2) for i in range(k)]
     elif family == "FALSYNODE":
         nodes = [F.FalsyNode(names[i]) for i in range(k)]  # always falsy, also as a parent with children
     elif family == "MIX":
@@ -50,7 +63,7 @@ def build_ch(ch, family="Node", names=None):
     return nodes
 
 
-READ_FAMILIES = ("Node", "NM", "LM", "AnyNode", "VAL", "FALSY", "VALLM", "FALSYNODE", "ITER")
+READ_FAMILIES = ("Node", "NM", "LM", "AnyNode", "VAL", "FALSY", "VALLM", "FALSYNODE", "ITER", "LIST")
 
 
 def evolving_universe(ctx, rng, fam, k, steps, fault_rate=0.0):
@@ -70,7 +83,7 @@ def evolving_universe(ctx, rng, fam, k, steps, fault_rate=0.0):
     rec = F.Rec(F.materialise(ffam, ch0))
     hist = []
     snap = rec.snapshot()
-    yield rec.nodes, [p for p, _ in snap], [list(c) for _, c in snap], {"family": fam, "state": [list(c) for c in ch0], "history": list(hist)}
+    yield rec.nodes, [p for p, _ in snap], [list(c) for _, c in snap], {"family": fam, "state": [list(c) for c in ch0], "history": list(hist), "reading_hooks": reading_hooks}
     for _ in range(steps):
         snap = rec.snapshot()
         call = eng.random_call(rng, k, [p for p, _ in snap], "LM")
@@ -81,7 +94,7 @@ def evolving_universe(ctx, rng, fam, k, steps, fault_rate=0.0):
             plan = ("once", rng.randrange(0, 6))
         elif call[0] == "setparent" and rng.random() < 0.15:
             # restricted re-entrancy: the pre hook of this parent assignment detaches another child of its parent argument
-            plan = ("evict", rng.choice([0, 2]))
+            plan = (rng.choice(["evict", "evict", "admit"]), rng.choice([0, 2]))
         hist.append([F._jsonable(call), F._jsonable(plan)])
         pre = snap
         ex = F.run_call(rec, ffam, call, F.Plan(plan), snaps_on=reading_hooks)
@@ -91,7 +104,7 @@ def evolving_universe(ctx, rng, fam, k, steps, fault_rate=0.0):
             # the structural calls themselves left something that is not a forest: every query result on it is
             # meaningless, which is reported under the property whose workload ran into it
             ctx.violation("%s/forest-inconsistent-after-history" % ctx.prop, "forest-invariant-in-history",
-                          {"family": fam, "state": [list(c) for c in ch0], "history": list(hist)}, expected="a consistent forest after every call", observed=probs[:4])
+                          {"family": fam, "state": [list(c) for c in ch0], "history": list(hist), "reading_hooks": reading_hooks}, expected="a consistent forest after every call", observed=probs[:4])
             return
         par, ch = [p for p, _ in snap], [list(c) for _, c in snap]
         if ex.outcome == "returned" and not ex.faults and not ex.evicted:
@@ -100,7 +113,7 @@ def evolving_universe(ctx, rng, fam, k, steps, fault_rate=0.0):
             out, mch, _ = M.model_call(M.ch_of(pre), call, F.base_family(ffam))
             if out in ("ok", "noop"):
                 par, ch = gen.parents_of(mch), [list(c) for c in mch]
-        yield rec.nodes, par, ch, {"family": fam, "state": [list(c) for c in ch0], "history": list(hist)}
+        yield rec.nodes, par, ch, {"family": fam, "state": [list(c) for c in ch0], "history": list(hist), "reading_hooks": reading_hooks}
 
 
 def replay_universe(case):
@@ -118,12 +131,12 @@ def replay_universe(case):
     snap = rec.snapshot()
     states.append((rec.nodes, [p for p, _ in snap], [list(c) for _, c in snap]))
     for ent in case["history"]:
-        if len(ent) == 2 and isinstance(ent[1], list) and ent[1] and ent[1][0] in ("none", "once", "evict"):
+        if len(ent) == 2 and isinstance(ent[1], list) and ent[1] and ent[1][0] in ("none", "once", "evict", "admit"):
             call, plan = ent
         else:
             call, plan = ent, ["none"]
         pre = rec.snapshot()
-        ex = F.run_call(rec, ffam, tup(call), F.Plan(tup(plan)), snaps_on=True)
+        ex = F.run_call(rec, ffam, tup(call), F.Plan(tup(plan)), snaps_on=case.get("reading_hooks", True))
         snap = rec.snapshot()
         par, ch = [p for p, _ in snap], [list(c) for _, c in snap]
         if ex.outcome == "returned" and not ex.faults and not ex.evicted and not M.invariant(pre):
